@@ -18,6 +18,7 @@ func init() {
 			ruleChannelClose(c, "C01.13")
 			ruleInvokeShape(c, "C01.14")
 			ruleLookAhead(c, "C01.15")
+			ruleSendReportsTruth(c, "C01.16")
 		},
 		Explain:    "Static structural necessary conditions of exactly-once/in-order/intact delivery on the right RPC, decided on the SSA form of the current tree: byte accounting of the chunk loops in both senders, envelope/continuation construction in both send callbacks, the state machine of both reassembly functions (every loop edge and every return classified), non-nil error whenever no data is returned (marker-before-wake argument), routing by the received frame's own id, id origin of every emitted frame, FIFO/drain-before-EOF discipline of the queue, single consumer under the read mutex. All paths, all instantiations; no bound on sizes or schedules. Not the behaviour itself: byte equality through protobuf and the transport are trusted.",
 		Assume:     []string{"protobuf marshal/unmarshal and the carrier transport deliver bytes unchanged and in order", "gRPC's one-sender/one-receiver-per-stream contract", "container/list is FIFO with PushBack/Front"},
